@@ -38,6 +38,10 @@ pub enum K {
     LetCmdPre,
     CountDef,
     ToksDef,
+    CountViaAlias, // the register is assigned through a \countdef alias and read by number
+    ToksViaAlias,
+    NewInt,        // a variable allocated with \newInt
+    NewIntArrayElem,
     CharDef,
     CatCode,
     MathCode,
@@ -50,6 +54,7 @@ pub const MAP_KINDS: &[K] = &[K::MacroCs, K::MacroActive, K::LetChar, K::LetCmd]
 pub const VAR_KINDS: &[K] = &[
     K::Count, K::CountAdvance, K::Dimen, K::Skip, K::Toks, K::MacroPre, K::MacroActivePre, K::LetCmdPre,
     K::CountDef, K::ToksDef, K::CharDef, K::CatCode, K::MathCode, K::EndLineChar, K::Font,
+    K::CountViaAlias, K::ToksViaAlias, K::NewInt, K::NewIntArrayElem,
 ];
 
 /// A kind instantiated for a slot (1 or 2...) so that two keys of the same kind use different targets.
@@ -83,6 +88,10 @@ impl Bind {
             K::CountDef => format!("\\count1{s}0=1{s}0 \\count1{s}1=1{s}1 \\count1{s}2=1{s}2 \\countdef\\{}=1{s}0 ", CS[s]),
             K::ToksDef => format!("\\toks1{s}0={{T0}}\\toks1{s}1={{T1}}\\toks1{s}2={{T2}}\\toksdef\\{}=1{s}0 ", CS[s]),
             K::CharDef => format!("\\chardef\\{}=60 ", CS[s]),
+            K::CountViaAlias => format!("\\countdef\\{}=2{s}0 ", CS[s]),
+            K::ToksViaAlias => format!("\\toksdef\\{}=2{s}0 ", CS[s]),
+            K::NewInt => format!("\\newInt\\{} ", CS[s]),
+            K::NewIntArrayElem => format!("\\newIntArray\\{} 5 ", CS[s]),
             K::Font => "\\font\\fa=fa \\font\\fb=fb ".to_string(),
             K::MathCode => format!("\\mathcode`\\{}=4 ", CC[s]),
             _ => String::new(),
@@ -128,6 +137,15 @@ impl Bind {
             K::MacroActive | K::MacroActivePre => format!("{g}\\def{}{{m{x}}}", ACT[s]),
             K::LetChar => format!("{g}\\let\\{}={} ", CS[s], ['?', 'a', 'b'][x]),
             K::LetCmd | K::LetCmdPre => format!("{g}\\let\\{}=\\{} ", CS[s], ["zero", "one", "two"][x]),
+            K::CountViaAlias | K::NewInt => format!("{g}\\{}={} ", CS[s], [0, 11, 22][x]),
+            K::NewIntArrayElem => format!("{g}\\{} 3={} ", CS[s], [0, 11, 22][x]),
+            K::ToksViaAlias => {
+                if x == 0 {
+                    format!("{g}\\{}={{}}", CS[s])
+                } else {
+                    format!("{g}\\{}={{t{x}}}", CS[s])
+                }
+            }
             K::CountDef => format!("{g}\\countdef\\{}=1{s}{x} ", CS[s]),
             K::ToksDef => format!("{g}\\toksdef\\{}=1{s}{x} ", CS[s]),
             K::CharDef => format!("{g}\\chardef\\{}=6{x} ", CS[s]),
@@ -150,7 +168,10 @@ impl Bind {
             K::Toks => format!("\\the\\toks{s}"),
             K::MacroCs | K::MacroPre | K::LetChar | K::LetCmd | K::LetCmdPre => format!("\\{} ", CS[s]),
             K::MacroActive | K::MacroActivePre => format!("{}", ACT[s]),
-            K::CountDef | K::ToksDef | K::CharDef => format!("\\the\\{} ", CS[s]),
+            K::CountDef | K::ToksDef | K::CharDef | K::NewInt => format!("\\the\\{} ", CS[s]),
+            K::CountViaAlias => format!("\\the\\count2{s}0 "),
+            K::ToksViaAlias => format!("\\the\\toks2{s}0 "),
+            K::NewIntArrayElem => format!("\\the\\{} 3 ", CS[s]),
             K::CatCode => format!("\\the\\catcode`\\{} ", CC[s]),
             K::MathCode => format!("\\the\\mathcode`\\{} ", CC[s]),
             K::EndLineChar => "\\the\\endlinechar ".to_string(),
@@ -162,7 +183,14 @@ impl Bind {
     pub fn render(&self, x: usize) -> String {
         let s = self.slot;
         match self.kind {
-            K::Count | K::CountAdvance => ["0", "11", "22"][x].to_string(),
+            K::Count | K::CountAdvance | K::CountViaAlias | K::NewInt | K::NewIntArrayElem => ["0", "11", "22"][x].to_string(),
+            K::ToksViaAlias => {
+                if x == 0 {
+                    String::new()
+                } else {
+                    format!("t{x}")
+                }
+            }
             K::Dimen => format!("{x}.0pt"),
             K::Skip => {
                 if x == 0 {
